@@ -206,13 +206,17 @@ class CHECK(vlib.Check):
                 "field table and of the field representation (empty/inline/array), MoveNameToFront/Back, CopyName, ReplaceFlat; the "
                 "templated codec (CreateMessageTemplate, TemplatedFlattenedSize/TemplatedFlatten/TemplatedUnflatten; the 'payload has "
                 "fewer items than the template' branch of TemplatedFlatten is not modelled).  Not modelled: the Queue ring buffer inside a field "
-                "array (C16), the Hashtable's buckets (C09), TemplateHashCode64 and the gateway's template cache (C03), object sharing/copy-on-write, "
-                "MurmurHash2 (a parameter of the theorems; the OCaml driver supplies it).")
+                "array (C16), the Hashtable's buckets (C09), the gateway's template cache (C03), object sharing/copy-on-write, "
+                "MurmurHash2 and MurmurHash64A (parameters of the theorems; the OCaml driver supplies them).  Message::TemplateHashCode64 "
+                "is modelled (tmpl_hash: running field counter * (64-bit field-name hash + item count * type code), the counter threaded "
+                "through every sub-Message of a Message field, uint64/uint32 wrap-around, 0 -> 1) "
+                "and compared on template and payload in the templated stream (line TH).")
     premises = ["memory safety and object lifetime of the C++ (observed by ASan/UBSan in the harness only)",
                 "strings and field names are NUL-free (finding F9: domain boundary of muscle::String; the model reproduces the truncation and "
                 "the correspondence run includes such strings)",
                 "every count and flattened size is below 2^32 (uint32 wrap-around of sizes is outside the domain)",
-                "CalculateHashCode (MurmurHash2) and the item types' operator== are parameters of the theorems (any function)"]
+                "CalculateHashCode (MurmurHash2), CalculateHashCode64 (MurmurHash64A) and the item types' operator== are parameters of the "
+                "theorems (any function)"]
     rule = ("operation scripts over 8 Message registers generated from random.Random(seed): Add/Prepend/Replace/Remove/Rename/"
             "AddMessage/copy/round-trip ops on every field type with boundary bit patterns (NaN payloads, +-0, inf, denormals, "
             "INT_MIN..), names of 0/7/8/9 bytes and non-ASCII, raw fields with arbitrary type codes, pointer/tag fields, nesting; plus a "
